@@ -3,7 +3,7 @@
 
   request (one JSON object per line)                      answer (one JSON object per line)
     {"op":"simplify","sizes":[[name,id]…],                 {"ok":true,"body":[stmt…],"preds":[expr…]}
-       "preds":[expr…],"body":[stmt…],"fixmod":bool}       {"ok":false,"err":"model-none"}
+       "preds":[expr…],"body":[stmt…]}       {"ok":false,"err":"model-none"}
     {"op":"expr","sizes":…,"scope":[[name,id,lo,hi]…],     {"ok":true,"e":expr,"str":text}
        "facts":[cond…],"e":expr}
     {"op":"trace","body":[stmt…],"syms":[[name,id,v]…],    {"ok":true,"trace":[[int…]…],"cfg":[[c,f,v]…]}
